@@ -206,7 +206,7 @@ def mon_c14(f):
 
 
 def mon_c15(f):
-    out = []
+    out = writes_after_cancel(f)
     fin0 = f.rec.get("final0")
     if fin0:
         # the link has ended, its context is cancelled, its reads fail; some handlers are still inside application code
@@ -234,6 +234,23 @@ def mon_c15(f):
     if f.rec.get("leaked"):
         out.append("goroutines leaked: %s" % f.rec["leaked"])
     return out
+
+
+def writes_after_cancel(f):
+    """frames handed to the transport at a step after the link context was cancelled (both write paths look at the
+    context first, so there are none): a transport whose writes block then holds that goroutine for ever"""
+    k0 = f.cancel_step.get(0)
+    if k0 is None:
+        return []
+    seen = len(f.trace[k0]["obs"]["events"])
+    for k in range(k0 + 1, len(f.trace)):
+        evs = f.trace[k]["obs"]["events"]
+        for e in evs[seen:]:
+            if e["k"] in ("resw", "reqw"):
+                return ["step %d: the link context had been cancelled at step %d, yet a %s frame is handed to the transport afterwards (%s): with a transport whose writes block once the peer is gone, this goroutine of panrpc never exits" % (
+                    k, k0, "response" if e["k"] == "resw" else "request", (e.get("raw") or "")[:80])]
+        seen = len(evs)
+    return []
 
 
 def mon_c16(f):
@@ -438,7 +455,15 @@ def check(res, tier, seed):
                           dict(kind="sys", family="linkend", output=lout[-3000:]))
         for r in lrecs:
             if pid == "C05":
+                # deadlocks: a link that ends while the application is inside an enumeration (the registry's lock is held)
                 vs = []
+                if "ForRemotes callback" in r.get("config", ""):
+                    if r.get("hang"):
+                        vs.append("%s: the scenario never finishes: goroutines are deadlocked inside panrpc" % r["config"])
+                    for c in r.get("calls") or []:
+                        if c["m"] == "LinkReturn" and c["ret"] != "returned":
+                            vs.append("%s: Link never returns: the goroutine reporting the failure is deadlocked on the registry's lock, which the enumeration holds" % r["config"])
+                    vs += [n for n in (r.get("notes") or []) if "enumeration did not finish" in n]
             elif pid == "C03":
                 vs = sys_props.mon_linkend(r)
             else:
@@ -447,15 +472,18 @@ def check(res, tier, seed):
                     if c["m"] == "LinkReturn" and c["ret"] == "returned" and "fails with" in r["config"]:
                         want = {"context.Canceled": "context canceled", "context.DeadlineExceeded": "context deadline exceeded", "io.EOF": "EOF",
                                 "io.ErrUnexpectedEOF": "unexpected EOF", "net.ErrClosed": "use of closed network connection", "os.ErrDeadlineExceeded": "i/o timeout",
-                                "utils.ErrClosed": "closed", "wrapped context.Canceled": "read tcp: context canceled", "plain": "connection reset by peer"}[r["config"].split("fails with ")[1]]
+                                "utils.ErrClosed": "closed", "wrapped context.Canceled": "read tcp: context canceled", "plain": "connection reset by peer"}[r["config"].split("fails with ")[1].split(" (")[0]]
                         if c["err"] != want:
                             vs.append("%s: Link returned %r, not the first (and only) reported error %r" % (r["config"], c["err"], want))
                     elif c["m"] == "LinkReturn" and c["ret"] == "returned" and "with a cause" in r["config"]:
                         want = "context deadline exceeded" if "timed out" in r["config"] else "context canceled"
                         if c["err"] != want:
                             vs.append("%s: Link returned %r, not the context's error %r" % (r["config"], c["err"], want))
+                    elif c["m"] == "LinkReturn" and c["ret"] == "returned" and c.get("oracle"):
+                        if c["oracle"] not in c["err"]:
+                            vs.append("%s: Link returned %r, not the failure that ended the link (%r)" % (r["config"], c["err"], c["oracle"]))
                     elif c["m"] == "LinkReturn" and c["ret"] != "returned":
-                        vs.append("Link did not return although an error was reported (%s)" % r["config"])
+                        vs.append("Link did not return although an error was reported (%s): %s" % (r["config"], c["ret"]))
                     elif c["m"] == "LinkStillUp" and c["ret"] != "up":
                         vs.append("Link returned %r on the %s although the link is healthy: only the context of one invocation of a callable was cancelled, a call was cancelled and a handler returned an error" % (c["err"], c.get("extra")))
             if vs:
@@ -505,6 +533,21 @@ def check(res, tier, seed):
         from . import sys_props
         crecs, crc, cout = C.run_job(binary, wd, "closures", dict(family="sys", seed=seed, n=(16 if tier == "quick" else 300), cases=["closures"], params=dict(percase=6)), timeout=400)
         fam["closures(black-box)"] = len(crecs)
+        if pid == "C05":
+            # real scheduler: overlapping closure registrations, look-ups and releases, plus a raw peer invoking unknown ids
+            srecs3, src3, sout3 = C.run_job(binary, wd, "closurestress", dict(family="sys", seed=seed, n=1, cases=["closurestress"],
+                                            params=dict(workers=32, perworker=(600 if tier == "quick" else 8000))), timeout=600)
+            fam["closurestress(real scheduler)"] = len(srecs3)
+            if src3 != 0 or not srecs3:
+                monitor_hits += 1
+                line = next((l for l in sout3.splitlines() if l.startswith("panic:") or "fatal error" in l), (sout3.strip().splitlines() or ["?"])[-1])
+                res.violation("closurestress-crash", "the process died while 32 goroutines made closure-carrying calls on one registry and a raw peer invoked unknown closure ids: %s" % line[:300],
+                              dict(kind="sys", family="closurestress", output=sout3[-3000:]))
+            for r in srecs3:
+                vs = list(r.get("notes") or []) + (["the closure stress did not finish (calls stuck inside panrpc)"] if r.get("hang") else [])
+                if vs:
+                    monitor_hits += 1
+                    res.violation("closurestress", "implementation violates C05: %s" % vs[0], dict(kind="sys", family="closurestress", seed=r["seed"], all=vs[:6]))
         if pid == "C12":
             # a long history on one registry: thousands of sequential closure-carrying calls, table empty after each
             nlong = 5000 if tier == "quick" else 70000
